@@ -7,12 +7,16 @@ exhaustive, else 50 random) must give ONE outcome."""
 import resolution_common as rc
 
 GEN = []
-RULE = ("dense families: 1-3 layers x 2-6 overloads typed over the lattice (diamond: A, B, D(A,B), E(D)) with 1-3 "
-        "visible parameters, optional hidden/default/keyword-only/*args; calls with D/E instances; each family is run in a "
-        "random enumeration order (C) and in all orders (O); non-trivial = some layer has >= 2 candidates; distinct = distinct (family, call)")
+RULE = ("dense families: 1-3 layers x 2-6 overloads with 1-3 visible parameters typed either over the chain-and-diamond part of "
+        "the lattice (A, B, D(A,B), E(D)) or over a mutually unrelated pool (object, A, B, G(A), H(G,B), AnyOf(...)) where "
+        "specialization of mappings is not transitive; optional hidden/default/keyword-only (multi-word names)/*args; exclusive "
+        "layers register a random subset of their overloads with exclusive=True; calls with D/E/H instances and with values only "
+        "outer layers accept; overloads are registered AND enumerated in the order of the family, which is random in C and runs "
+        "through all permutations in O; non-trivial = some layer has >= 2 candidates; distinct = distinct (family, call)")
 TRUSTED = ["Model/Resolution.v (transcription; tied by this correspondence)",
            "harness/resolution_common.py: OrderedContext (get_functions returns the harness-chosen ordered list), probes, canonicalisation"]
-ASSUMPTIONS = ["the only source of order is the iteration order of the collection returned by get_functions for each layer",
+ASSUMPTIONS = ["the sources of order are the iteration order of the collection returned by get_functions for each layer and the "
+               "order of the register_function calls (with their exclusive= options) that built the layer",
                "FunctionDefinition identities are unique"]
 EXPLANATION = ("proof that the model's outcome is invariant under any permutation of every layer + differential check of the model "
                "against the real runner under harness-chosen enumeration orders + exhaustive permutation oracle on the real runner")
